@@ -97,6 +97,11 @@ func c06(r *Report) propMeta {
 	r.Gate("only-available-prices-enter", mv, CallEff("builtin.append", "param:validatorPriceInfos", "!call:types.NewWeightedPrice"), []Cond{isAvail}, GateOpts{})
 	r.Gate("section-capacity-from-available-power-only", mv, CallEff("Int.Add", "field:ValidatorPriceInfo.Power", "param:validatorPriceInfos", "!call:Int.Mul", "!call:Int.Sub"), []Cond{isAvail}, GateOpts{})
 	r.ArgHas("weighted-price-is-input-price", mv, "types.NewWeightedPrice", 1, 1, "^field:ValidatorPriceInfo.Price")
+	// the section arithmetic is exact: powers are scaled UP by the scaling factor (one multiplication per entry) and no
+	// truncating division appears in the weighting (seed C06-14 scaled the section limits DOWN with Quo instead, which
+	// rounds the 1/32 .. 15/32 boundaries whenever the total power is not a multiple of 32)
+	r.Exists("power-scaled-up-by-the-factor", mv, CallEff("Int.Mul", "call:types.getPowerScalingFactor", "field:ValidatorPriceInfo.Power"), 1)
+	r.EffectSet("no-truncating-division-in-the-weighting", mv, []string{"Int.Quo", "Int.QuoRaw", "LegacyDec.Quo", "LegacyDec.QuoTruncate", "LegacyDec.TruncateInt", "LegacyDec.RoundInt"}, nil)
 	r.ArgHas("median-of-weighted", mv, "types.MedianWeightedPrice", 0, 1, "call:types.NewWeightedPrice")
 	r.ctorField("weighted-ctor", "x/feeds/types.NewWeightedPrice", "WeightedPrice.Price", 1)
 	r.ctorField("weighted-ctor", "x/feeds/types.NewWeightedPrice", "WeightedPrice.Weight", 0)
